@@ -15,6 +15,8 @@ func init() { register("C15", propC15) }
 func propC15(c *Ctx) propInfo {
 	c.walletConstants() // the v5r1 wallet id enters the address
 	c.confirmationReach()
+	c.pollingLoopShape()
+	c.signedWorkchain()
 	c.errflow(excC15E2, "wallet")
 	c.floor("E2.R-drop", 100)
 	c.walletConfigFlow()
@@ -761,5 +763,105 @@ func (c *Ctx) confirmationReach() {
 			}
 		}
 		c.check(okv, R, "the confirmation loop is reachable for every seqno wallet", cl.Pos(), desc, "RawSendV2 reaches the seqno polling loop only when the wallet version EQUALS one particular version ("+desc+"): for every other version a send that asks for confirmation fails (or, for the highload wallet, polls a seqno it does not have)")
+	}
+}
+
+// round-5 rules for C15.
+
+// pollingLoopShape: the confirmation loop is bounded by TIME (its condition depends on time.Since
+// or a deadline) and every trip round the loop - including the `continue` after a failed seqno
+// query - passes through the sleep. A loop bounded by a number of attempts whose error path skips
+// the sleep burns all attempts in microseconds and reports a timeout long before the deadline.
+func (c *Ctx) pollingLoopShape() {
+	const R = "E15.send-pipeline"
+	f := c.fn("wallet", "Wallet.RawSendV2")
+	if f == nil {
+		return
+	}
+	for _, cl := range callsTo(f, modPath+"/wallet.blockchain.GetSeqno") {
+		if !inLoop(cl.Block()) {
+			continue
+		}
+		// the loop: blocks that reach the call and are reached from it
+		from := reachableFrom(cl.Block(), nil)
+		loop := map[*ssa.BasicBlock]bool{}
+		for b := range from {
+			if reachableFrom(b, nil)[cl.Block()] {
+				loop[b] = true
+			}
+		}
+		// (a) every cycle through the call passes a sleep/timer: cut the blocks that sleep
+		sleeps := map[*ssa.BasicBlock]bool{}
+		for b := range loop {
+			for _, in := range b.Instrs {
+				if c2, ok := in.(*ssa.Call); ok {
+					switch callQName(&c2.Call) {
+					case "time.Sleep", "time.After", "time.NewTimer", "time.Timer.Reset":
+						sleeps[b] = true
+					}
+				}
+				if _, ok := in.(*ssa.Select); ok {
+					sleeps[b] = true
+				}
+			}
+		}
+		cycle := false
+		var dfs func(b *ssa.BasicBlock, seen map[*ssa.BasicBlock]bool) bool
+		dfs = func(b *ssa.BasicBlock, seen map[*ssa.BasicBlock]bool) bool {
+			for _, s := range b.Succs {
+				if !loop[s] || sleeps[s] {
+					continue
+				}
+				if s == cl.Block() {
+					return true
+				}
+				if !seen[s] {
+					seen[s] = true
+					if dfs(s, seen) {
+						return true
+					}
+				}
+			}
+			return false
+		}
+		if !sleeps[cl.Block()] {
+			cycle = dfs(cl.Block(), map[*ssa.BasicBlock]bool{})
+		}
+		c.check(!cycle, R, "every trip of the confirmation loop waits", cl.Pos(), "no cycle through GetSeqno avoids the sleep", "RawSendV2's confirmation loop has a path from one seqno query to the next that does not sleep (the `continue` after a failed query): while queries fail the loop spins, and if it counts attempts it gives up at once")
+		// (b) the loop is bounded by time
+		timed := false
+		for b := range loop {
+			if iff := lastIf(b); iff != nil {
+				exits := !loop[b.Succs[0]] || !loop[b.Succs[1]]
+				if exits && derivesFrom(iff.Cond, callResult("time.Since", "time.Time.Before", "time.Time.After", "time.Until", "context.Context.Err"), true) {
+					timed = true
+				}
+			}
+		}
+		c.check(timed, R, "the confirmation loop is bounded by the requested wait", cl.Pos(), "exit condition depends on elapsed time", "RawSendV2's confirmation loop no longer ends by elapsed time (time.Since / deadline) but by a count of attempts: the caller asked to wait up to waitingConfirmation, and how long N attempts take depends on how fast they fail")
+	}
+}
+
+// signedWorkchain: a workchain is a signed quantity (-1 is the masterchain). The value a wallet
+// hands to generateAddress comes from a field or option of a SIGNED integer type; through a uint8
+// field -1 becomes 255 and the address names a workchain that does not exist.
+func (c *Ctx) signedWorkchain() {
+	const R = "E15.address-unity"
+	n := 0
+	for _, f := range c.moduleFuncs("wallet") {
+		for _, cl := range callsTo(f, modPath+"/wallet.generateAddress") {
+			n++
+			bad := ""
+			derivesFrom(cl.Call.Args[0], func(v ssa.Value) bool {
+				if b, ok := v.Type().Underlying().(*types.Basic); ok && b.Info()&types.IsInteger != 0 && b.Info()&types.IsUnsigned != 0 {
+					bad = shape(v, 2) + " (" + b.Name() + ")"
+				}
+				return false
+			}, false)
+			c.check(bad == "", R, fnName(f)+": the address workchain is carried in signed integers", cl.Pos(), "no unsigned value on the way to generateAddress", fnName(f)+" derives the workchain passed to generateAddress from the unsigned value "+bad+": workchain -1 (masterchain) becomes 255 in the address while the wallet id still says -1")
+		}
+	}
+	if n < 5 {
+		c.bad(R, "generateAddress call sites found", token.NoPos, fmt.Sprintf("only %d calls of wallet.generateAddress found; one per wallet version was confirmed", n))
 	}
 }
